@@ -185,14 +185,62 @@ def replay_history(ctx, driver, prog, acts, invs):
     return r, g
 
 
+def random_walks(ctx, driver, prog, invs, nwalks, length):
+    """Cheap first stage: random histories over the same action alphabet, executed for real one after the other (no state merging)
+    and judged as a forest by the same TLC invariants.  It does not replace the exhaustive exploration; it finds shallow violations in
+    seconds even when a change inflates the real state space."""
+    rnd = random.Random("%s-%s-%s" % (ctx.seed, prog["name"], ctx.pid))
+    files, tasks = prog["files"], [t["name"] for t in prog["tasks"]]
+    hists = []
+    for _ in range(nwalks):
+        acts, cur = [], dict(prog["init"])
+        for _ in range(length):
+            x = rnd.random()
+            if x < 0.38:
+                f = rnd.choice(files)
+                c = rnd.choice([c for c in list(range(prog["ncontents"])) + [9] if c != cur.get(f, 9)])
+                cur[f] = c
+                acts.append({"act": "edit", "f": f, "c": c})
+            elif x < 0.42:
+                acts.append({"act": "rmcache"})
+            elif x < 0.52 and prog["crash"]:
+                acts.append({"act": "tear", "k": rnd.choice([0, 1, 2, 5, 20, 40, 60, 90, 100, 120, 150])})
+            else:
+                a = {"act": "invoke", "req": rnd.choice(prog["reqsets"]), "force": rnd.random() < 0.25, "failing": rnd.choice(prog["failsets"]) if rnd.random() < 0.3 else [],
+                     "crash": {"kind": "", "k": 0}}
+                if prog["crash"] and rnd.random() < 0.35:
+                    a["crash"] = {"kind": rnd.choice(["event", "event", "cmd"]), "k": rnd.randint(1, 12)}
+                acts.append(a)
+        hists.append(acts)
+    d = ctx.sub("walk-" + prog["name"])
+    json.dump(prog, open(os.path.join(d, "program.json"), "w"))
+    json.dump(hists, open(os.path.join(d, "hists.json"), "w"))
+    p = subprocess.run([driver, "run-replay", "--batch", "--root", os.path.join(d, "proj"), "--program", os.path.join(d, "program.json"),
+                        "--actions", os.path.join(d, "hists.json"), "--out", os.path.join(d, "graph.ndjson")], capture_output=True, text=True)
+    if p.returncode != 0:
+        raise Machinery("run-replay --batch (random walks) failed: %s" % p.stderr[-2000:])
+    r = judge(ctx, d, invs, workers=2, timeout=900)
+    out = {"walks": nwalks, "length": length, "tlc_distinct": r.distinct, "violation": None}
+    if r.violated:
+        g = vlib.read_ndjson(os.path.join(d, "graph.ndjson"))
+        edges = [e for e in actions_from_trace(g, r.trace) if e["act"] != "reset"]
+        out["violation"] = (r.violated, edges)
+    return out
+
+
 def check_program(ctx, driver, prog, invs):
+    walks = random_walks(ctx, driver, prog, invs, 250 if ctx.tier == "quick" else 3000, 10 if ctx.tier == "quick" else 14)
+    if walks["violation"]:
+        # a real violating history is already in hand: confirm and report it instead of paying for the exhaustive exploration
+        return {"prog": prog["name"], "summ": {"states": 0, "edges": 0, "invocations": walks["walks"] * walks["length"]}, "tlc": vlib.TLCResult(),
+                "dir": None, "violation": walks["violation"], "walks": walks}
     d, summ = explore(ctx, driver, prog)
     r = judge(ctx, d, invs)
     if summ.get("truncated") and not r.violated:
         # the breadth-first exploration was cut off (far more real states than this program has on a correct tree): a violation found in
         # the explored part is real, but "held" cannot be claimed
         raise Machinery("exploration of %s was cut off at %s states and no violation was found in the explored part" % (prog["name"], summ["states"]))
-    res = {"prog": prog["name"], "summ": summ, "tlc": r, "dir": d, "violation": None}
+    res = {"prog": prog["name"], "summ": summ, "tlc": r, "dir": d, "violation": None, "walks": walks}
     if r.violated:
         if not r.trace:
             raise Machinery("TLC reported %s but no trace was dumped" % r.violated)
@@ -252,7 +300,7 @@ def run(ctx):
             vlib.report(ctx, sig, "%s violated in %s by the real history: %s" % (r2.violated, prog["name"], human(edges2)),
                         {"property": pid, "family": "run", "invariant": r2.violated, "program": prog, "actions": acts[:nsteps],
                          "observed": edges2, "history": human(edges2)})
-    graphs = [vlib.read_ndjson(os.path.join(r["dir"], "graph.ndjson")) for r in results]
+    graphs = [vlib.read_ndjson(os.path.join(r["dir"], "graph.ndjson")) if r["dir"] else [] for r in results]
     tot_states = sum(r["tlc"].distinct for r in results)
     tot_trans = sum(r["tlc"].generated for r in results)
     rnd = random.Random(ctx.seed)
@@ -279,7 +327,8 @@ def run(ctx):
                  "C10": "were killed or start from a torn cache"}[pid],
         "programs": [{"name": r["prog"], "real_states": r["summ"]["states"], "real_edges": r["summ"]["edges"],
                       "real_invocations": r["summ"]["invocations"], "tlc_product_distinct": r["tlc"].distinct,
-                      "tlc_product_generated": r["tlc"].generated, "depth": r["tlc"].depth} for r in results],
+                      "tlc_product_generated": r["tlc"].generated, "depth": r["tlc"].depth,
+                      "random_walks": {k: v for k, v in r.get("walks", {}).items() if k != "violation"}} for r in results],
         "judge": {"module": "SpokRunTrace", "invariants": invs},
         "protocol_model": mc,
         "binary_kill_validation": killval,
@@ -295,7 +344,7 @@ def run(ctx):
 def selftest(ctx, results, progs, invs):
     """Corrupt one recorded field of a real graph: TLC must reject it."""
     for res, prog in zip(results, progs):
-        if res["violation"]:
+        if res["violation"] or not res["dir"]:
             continue
         g = vlib.read_ndjson(os.path.join(res["dir"], "graph.ndjson"))
         target = None
